@@ -121,6 +121,10 @@ func runC18(c *core.Ctx) {
 	}
 
 	// ------------------------------------------------------------ lines
+	c.Doc("C18.stateless", "the IDL parser keeps nothing between two parses: its entry points use no package-level variable that changes after initialisation", 1)
+	ruleParserKeepsNoState(c, "C18.stateless", "meta/idl", "ParsePackage", "ParseIDL")
+	c.Doc("C18.loop-variables", "no address of a loop variable shared by all iterations is kept beyond its iteration (the interfaces, methods and members of a package are printed and rebuilt in loops)", 1)
+	ruleNoLoopVarAddressKept(c, "C18.loop-variables", "meta/idl", "meta/signature", "type/object")
 	c.Doc("C18.lines", "keywords and punctuation of the generated lines are parser atoms; uid read back as printed", 8)
 	allAtoms := map[string]bool{}
 	for _, f := range ip.Syntax {
